@@ -147,6 +147,9 @@ macro_rules! is_core {
     };
 }
 
+pub type Text = String;
+pub type SmallInt = u8;
+
 pub const fn non_negative_i16(x: i16) -> i16 {
     if x < 0 {
         0
@@ -504,6 +507,26 @@ decls! {
     family = "other"; validated = true; core = true;
     gen = |r| if r.chance(1, 4) { None } else { Some(gen_int(r, 0, 9, 0, 255) as u8) };
     corpus = vec![None, Some(0), Some(9), Some(10), Some(255)];
+
+    // inner types spelled as an alias or a qualified path: the macro sees only syntax and treats
+    // them as the `any` family although they are String / u8
+    #[nutype(sanitize(with = |s: Text| s.trim().to_lowercase()), validate(predicate = |s| !s.is_empty()), derive(Debug, Clone, Serialize, Deserialize))]
+    struct AliasText(Text);
+    family = "other"; validated = true; core = false;
+    gen = |r| gen_string(r, 6);
+    corpus = vec![s(""), s(" Ab "), s("x"), s("  ")];
+
+    #[nutype(sanitize(with = |s: std::string::String| s.trim().to_string()), validate(predicate = |s| s.chars().count() <= 6), derive(Debug, Clone, Serialize, Deserialize))]
+    struct PathString(std::string::String);
+    family = "other"; validated = true; core = false;
+    gen = |r| gen_string(r, 8);
+    corpus = vec![s(""), s(" abcdef "), s("abcdefg"), s("ßßßßßß")];
+
+    #[nutype(validate(predicate = |x| *x < 200), derive(Debug, Clone, Serialize, Deserialize))]
+    struct AliasU8(SmallInt);
+    family = "other"; validated = true; core = false;
+    gen = |r| r.below(256) as u8;
+    corpus = vec![0, 199, 200, 255];
 
     // `new_unchecked` opted in: the unsafe constructor must stay the only way around the guards
     #[nutype(new_unchecked, sanitize(trim), validate(not_empty, len_char_max = 8), derive(Debug, Clone, Serialize, Deserialize))]
